@@ -157,6 +157,19 @@ def build(item):
             d = {"jsonrpc": "2.0", "method": "m", "params": {}}
             d["params"]["self"] = d
             return d
+        # the MESSAGE ITSELF is a hostile dict: keys that are not strings and not mutually orderable, a dict subclass whose
+        # iteration raises (anything an error handler might do with the failed message - sort it, list it, print it)
+        if how == "top-mixed-keys":
+            return {"jsonrpc": "2.0", "method": "m", ("a", 1): object()}
+        if how == "top-tuple-keys":
+            return {("a",): 1, ("b", 2): object()}
+        if how == "top-int-none-keys":
+            return {1: object(), None: 2, "jsonrpc": "2.0", 2.5: 1, b"k": 3}
+        if how in ("items-raises", "iter-raises"):
+            def _boom(self, *a, **k):
+                raise RuntimeError("%s {0} no iteration")
+            D = type("HostileDict", (dict,), {"items": _boom, "keys": _boom, "values": _boom} if how == "items-raises" else {"__iter__": _boom})
+            return D({"jsonrpc": "2.0", "method": "m", "params": {"x": object()}})
         if how.startswith("raises:"):
             _, cls_name, where = how.split(":")
             return raising_object(cls_name, where)
@@ -314,15 +327,21 @@ def run_cases(cases):
 
     backend = {"orjson": bool(getattr(fast_json, "HAS_ORJSON", False)), "pydantic": bool(getattr(B, "PYDANTIC_AVAILABLE", True))}
     out = []
-    for o in stdio_h.run_writer_cases(cases, build):
-        if "harness_error" in o:
-            out.append(dict(o, backend=backend))
-            continue
+    def one(o):
         d = decode_lines(bytes.fromhex(o["bytes"]))
-        out.append({
+        return {
             "lines": d["lines"], "tail": d["tail"], "cr": d["cr"], "sends": o["sends"],
             "closed_before": o["before_close"]["closed"], "closed_after": o["after_close"]["closed"],
             "sends_at_close": o["after_close"]["sends_at_close"], "backend": backend, "late": o.get("late"),
             "failed_sends": o.get("failed_sends", []),
-        })
+        }
+
+    for o in stdio_h.run_writer_cases(cases, build):
+        if "harness_error" in o:
+            out.append(dict(o, backend=backend))
+            continue
+        r = one(o)
+        if o.get("earlier"):  # earlier connections on the same object
+            r["earlier"] = [one(e) for e in o["earlier"]]
+        out.append(r)
     return out
